@@ -129,7 +129,9 @@ def load_registered_codemods(ep_filter: Optional[Callable[[EntryPoint], bool]] =
     registry = CodemodRegistry()
     logger.debug("loading registered codemod collections")
 
-    for entry_point in set(entry_points().select(group="codemods")):
+    # De-duplicate while preserving order: iterating a set() made the registry
+    # order (and with it the order of executed codemods) depend on PYTHONHASHSEED
+    for entry_point in dict.fromkeys(entry_points().select(group="codemods")):
         if ep_filter and not ep_filter(entry_point):
             logger.debug(
                 '- skipping codemod collection "%s" from "%s as requested"',
